@@ -250,6 +250,17 @@ def groups(mapping):
     for k, d in by.items():
         if set(d) == {'0', '1', '2'} and T.TYPES.get(d['0']) == 'usize' and T.TYPES.get(d['1']) == 'u32' and T.TYPES.get(d['2']) == 'u32':
             out.append((d['0'], d['1'], d['2']))
+    if not out:
+        # the pieces are kept in separate locals: every (index, lo, hi) combination of the loop-carried variables is a
+        # candidate; the invariant inference keeps the combinations that really are pieces
+        idx = [hv for hv, ev in mapping if hv[0] == 'var' and T.TYPES.get(hv) == 'usize']
+        chs = [hv for hv, ev in mapping if hv[0] == 'var' and T.TYPES.get(hv) == 'u32' and not hv[1].startswith('#')]
+        if len(idx) <= 3 and len(chs) <= 5:
+            for i in idx:
+                for a in chs:
+                    for b in chs:
+                        if a != b:
+                            out.append((i, a, b))
     return out
 
 
